@@ -20,6 +20,12 @@ pub fn check_decode(ctx: &mut Ctx, kind: Kind, raw_ty: u16, value: &[u8], tid: &
     ctx.wd.enter("AttributeFromRaw::from_raw", value);
     let r = guard(|| {
         imp::impl_decode(kind, &raw, tid).map(|d| {
+            // a value that no wire encoding can carry (more than 65 535 bytes, only possible for an
+            // in-memory raw attribute) is judged for acceptance and decoded fields only: re-encoding
+            // it cannot be expressed in the 16-bit length field and is not specified
+            if value.len() > 65_535 {
+                return (d.val, kind.code(), value.to_vec(), value.len() as u16, d.obj.get_type().value(), d.display_len);
+            }
             let re = d.obj.to_raw();
             (d.val, re.get_type().value(), re.value.to_vec(), d.obj.length(), d.obj.get_type().value(), d.display_len)
         })
@@ -103,7 +109,7 @@ pub fn check_decode(ctx: &mut Ctx, kind: Kind, raw_ty: u16, value: &[u8], tid: &
             // re-encoding a decoded value is stable: it yields the canonical RFC encoding of the
             // decoded fields, and decoding that again gives the same fields
             let canon = ref_encode(kind, v, tid).unwrap();
-            if *re_ty != kind.code() || *ty != kind.code() || *re_val != canon || *len as usize != canon.len() {
+            if value.len() <= 65_535 && (*re_ty != kind.code() || *ty != kind.code() || *re_val != canon || *len as usize != canon.len()) {
                 ctx.violation(
                     "C08",
                     "reencode-stable",
